@@ -155,6 +155,48 @@ def rename_locals(source):
     return ast.unparse(tree) + '\n'
 
 
+def transform_tree(source, how):
+    """behaviour-preserving rewrites applied at every site of a file:
+       FLIPCMP  a < b -> b > a   (also <=, >, >=; single comparisons of side-effect-free operands)
+       SWAPIF   if c: A else: B -> if not c: B else: A     (both branches non-empty, no elif chain)
+       RETTMP   return E -> _ret = E; return _ret          (E not a name / constant)"""
+    import ast
+    tree = ast.parse(source)
+
+    def pure(e):
+        return not any(isinstance(n, (ast.Call, ast.Yield, ast.Await, ast.NamedExpr)) for n in ast.walk(e))
+    if how == 'FLIPCMP':
+        flip = {ast.Lt: ast.Gt, ast.Gt: ast.Lt, ast.LtE: ast.GtE, ast.GtE: ast.LtE}
+        for n in ast.walk(tree):
+            if isinstance(n, ast.Compare) and len(n.ops) == 1 and type(n.ops[0]) in flip and pure(n.left) and pure(n.comparators[0]):
+                n.left, n.comparators[0] = n.comparators[0], n.left
+                n.ops[0] = flip[type(n.ops[0])]()
+    elif how == 'SWAPIF':
+        for n in ast.walk(tree):
+            if isinstance(n, ast.If) and n.body and n.orelse and not (len(n.orelse) == 1 and isinstance(n.orelse[0], ast.If)):
+                t = n.test
+                n.test = t.operand if isinstance(t, ast.UnaryOp) and isinstance(t.op, ast.Not) else ast.UnaryOp(op=ast.Not(), operand=t)
+                n.body, n.orelse = n.orelse, n.body
+    elif how == 'RETTMP':
+        class R(ast.NodeTransformer):
+            def __init__(self):
+                self.k = 0
+
+            def visit_Return(self, node):
+                if node.value is None or isinstance(node.value, (ast.Name, ast.Constant)):
+                    return node
+                self.k += 1
+                nm = '_ret%d' % self.k
+                return [ast.Assign(targets=[ast.Name(id=nm, ctx=ast.Store())], value=node.value, lineno=node.lineno, col_offset=node.col_offset),
+                        ast.Return(value=ast.Name(id=nm, ctx=ast.Load()), lineno=node.lineno, col_offset=node.col_offset)]
+
+            def visit_Lambda(self, node):
+                return node
+        tree = R().visit(tree)
+    ast.fix_missing_locations(tree)
+    return ast.unparse(tree) + '\n'
+
+
 def apply(repo, m):
     """-> overlay dict or None when the anchor text is no longer present (stale)."""
     overlay = {}
@@ -175,6 +217,12 @@ def apply(repo, m):
         for rel in MBI_FILES + MECH_FILES:
             if repo.exists(rel):
                 overlay[rel] = rename_locals(repo.source(rel))
+        return overlay
+    if m['edits'] in ('FLIPCMP', 'SWAPIF', 'RETTMP'):
+        from ..srcmodel import MBI_FILES, MECH_FILES
+        for rel in MBI_FILES + MECH_FILES:
+            if repo.exists(rel):
+                overlay[rel] = transform_tree(repo.source(rel), m['edits'])
         return overlay
     for rel, old, new in m['edits']:
         src = overlay.get(rel) or repo.source(rel)
